@@ -227,6 +227,19 @@ if false {
 			return fmt.Sprintf("seen = [\"a\", \"b\"]\nseen[1] = seen[1] + seen[0]\nadd_key(seen%d, seen[1])\nnums = [1.5, 2, 3]\nnums[2] = nums[2] + nums[0]\nadd_key(num%d, nums[2])\n", id, id)
 		}
 	},
+	// builtins that fail at RUN time (the script still loads): the error object must be the same on every run
+	func(r *simrt.RNG, id int) string {
+		switch r.Intn(4) {
+		case 0:
+			return fmt.Sprintf("add_key(pre%d, 1)\nreplace(s, \"(?=x)\", \"y\")\nadd_key(post%d, 1)\n", id, id)
+		case 1:
+			return fmt.Sprintf("add_key(pre%d, 1)\nreplace(_, \"[a-\", \"y\")\n", id)
+		case 2:
+			return fmt.Sprintf("datetime(ms, \"ms\", \"no-such-layout\")\nadd_key(post%d, 1)\n", id)
+		default:
+			return fmt.Sprintf("zz = {\"a\": 1}\nadd_key(pre%d, zz[\"a\"][0])\n", id)
+		}
+	},
 	// infinite loop: only useful with cancellation
 	func(r *simrt.RNG, id int) string {
 		return fmt.Sprintf("c = 0\nfor ;; {\n  c = c + 1\n  if c > %d {\n    break\n  }\n}\nadd_key(spins, c)\n", 5+r.Intn(40))
@@ -235,6 +248,9 @@ if false {
 
 // GenScript returns a valid v1 script made of 1-3 recipes.
 func GenScript(r *simrt.RNG, id int) string {
+	if r.Intn(6) == 0 {
+		return GenProgram(r, id, false)
+	}
 	n := 1 + r.Intn(3)
 	var b strings.Builder
 	for i := 0; i < n; i++ {
@@ -320,6 +336,9 @@ func Mutate(r *simrt.RNG, s string) string {
 // GenV2 returns a script for the v2 interpreter: every name is assigned before
 // use, the only function is the probe out(x).
 func GenV2(r *simrt.RNG, id int) string {
+	if r.Intn(2) == 0 {
+		return GenProgram(r, id, true)
+	}
 	var b strings.Builder
 	fmt.Fprintf(&b, "a = %d\nb = \"s%d\"\nl = [1, 2, 3]\n", r.Intn(10), id)
 	n := 1 + r.Intn(4)
